@@ -1339,7 +1339,7 @@ def parse_snap(rec):
         if tok == 'Q':
             mode = 'Q'
             continue
-        if '=' in tok and tok.split('=')[0] in ('ACT', 'VIS', 'VISN', 'VISALL', 'VISALLN'):
+        if '=' in tok and tok.split('=')[0] in ('ACT', 'VIS', 'VISN', 'VISALL', 'VISALLN', 'DATA'):
             k, v = tok.split('=', 1)
             extras[k] = v
             continue
